@@ -1,7 +1,7 @@
-// Command driver replays TLC-generated cases into the real scriggo code and logs what it did.
+// Package drv is the shared main loop of the drivers. A driver replays TLC-generated cases into the real scriggo code and logs what it did.
 // It contains no oracle: it concretises cases, calls the public API (plus the -tags verif hooks)
 // and writes observations as ndjson; the TLA+ Trace specifications judge them.
-package main
+package drv
 
 import (
 	"bufio"
@@ -10,7 +10,6 @@ import (
 	"fmt"
 	"os"
 	"runtime"
-	"sort"
 	"sync"
 )
 
@@ -26,10 +25,6 @@ type Sub struct {
 	Whole func(in, out string, seed int64, args []string) error
 }
 
-var subs = map[string]*Sub{}
-
-func register(name string, s *Sub) { subs[name] = s }
-
 var (
 	flagIn    = flag.String("in", "", "cases ndjson")
 	flagOut   = flag.String("out", "", "observations ndjson")
@@ -38,23 +33,8 @@ var (
 	flagJ     = flag.Int("j", 0, "parallelism (0 = NumCPU)")
 )
 
-func main() {
-	if len(os.Args) < 2 {
-		names := []string{}
-		for n := range subs {
-			names = append(names, n)
-		}
-		sort.Strings(names)
-		fmt.Fprintln(os.Stderr, "usage: driver <sub> -in cases -out obs; subs:", names)
-		os.Exit(2)
-	}
-	name := os.Args[1]
-	s, ok := subs[name]
-	if !ok {
-		fmt.Fprintln(os.Stderr, "unknown sub-command", name)
-		os.Exit(2)
-	}
-	flag.CommandLine.Parse(os.Args[2:])
+func Main(s *Sub) {
+	flag.Parse()
 	if s.Whole != nil {
 		if err := s.Whole(*flagIn, *flagOut, *flagSeed, flag.Args()); err != nil {
 			fmt.Fprintln(os.Stderr, "driver:", err)
@@ -62,7 +42,7 @@ func main() {
 		}
 		return
 	}
-	cases, err := readLines(*flagIn)
+	cases, err := ReadLines(*flagIn)
 	if err != nil {
 		fmt.Fprintln(os.Stderr, "driver:", err)
 		os.Exit(2)
@@ -114,7 +94,7 @@ func main() {
 	f.Close()
 }
 
-func readLines(path string) ([]json.RawMessage, error) {
+func ReadLines(path string) ([]json.RawMessage, error) {
 	if path == "" {
 		return nil, nil
 	}
@@ -137,7 +117,7 @@ func readLines(path string) ([]json.RawMessage, error) {
 }
 
 // ints converts bytes to the int-array text representation shared with the specifications.
-func ints(b []byte) []int {
+func Ints(b []byte) []int {
 	out := make([]int, len(b))
 	for i, c := range b {
 		out[i] = int(c)
@@ -145,9 +125,9 @@ func ints(b []byte) []int {
 	return out
 }
 
-func intsS(s string) []int { return ints([]byte(s)) }
+func IntsS(s string) []int { return Ints([]byte(s)) }
 
-func bytesOf(a []int) []byte {
+func BytesOf(a []int) []byte {
 	out := make([]byte, len(a))
 	for i, c := range a {
 		out[i] = byte(c)
@@ -155,7 +135,7 @@ func bytesOf(a []int) []byte {
 	return out
 }
 
-func must(err error) {
+func Must(err error) {
 	if err != nil {
 		panic(err)
 	}
